@@ -14,9 +14,27 @@ impl DataRWAdapter for FlateAdapter {
     }
 
     fn adapt_writer<'w>(&self, writer: Box<dyn Write + 'w>) -> Box<dyn Write + 'w> {
-        Box::new(flate2::write::DeflateEncoder::new(
+        Box::new(FlateWriter(flate2::write::DeflateEncoder::new(
             writer,
             Compression::fast(),
-        ))
+        )))
+    }
+}
+
+/// Deflating writer which completes the deflate stream when flushed,
+/// so that failures of the underlying writer are reported to the caller
+/// instead of being lost when the encoder is dropped.
+///
+/// The data set is expected to be flushed once, after it was fully written.
+struct FlateWriter<W: Write>(flate2::write::DeflateEncoder<W>);
+
+impl<W: Write> Write for FlateWriter<W> {
+    fn write(&mut self, buf: &[u8]) -> std::io::Result<usize> {
+        self.0.write(buf)
+    }
+
+    fn flush(&mut self) -> std::io::Result<()> {
+        self.0.try_finish()?;
+        self.0.get_mut().flush()
     }
 }
